@@ -153,6 +153,7 @@ def sample(c, o):
             'listed_operations': len((o.get('plain') or {}).get('ops', [])), 'unrolled_operations': len((o.get('unrolled') or {}).get('ops', []))}
 
 
+SUPPORTING = ['libbuild']      # constructors as Gallina build programs (coq/LibBuild), tied node for node to the real constructors; LibBuild_chain_no_overlap_partial
 LEVEL_TEXT = ('Coq proof for the "all duration settings" half of the quantifier, per constructor input: a symbolic scheduler computes the listing of a relation graph once, '
               'with starts and ends as max-plus forms over R, M, F, S and the decoupling wait W; it is proved equal to the model\'s scheduler (Core/Model.v times / ext_of / '
               'listing_op, nested blocks and multi-links included) for every setting with non-negative globals and R - M even (C10_symbolic_listing_sound); a decidable order '
@@ -162,7 +163,7 @@ LEVEL_TEXT = ('Coq proof for the "all duration settings" half of the quantifier,
               'extracted from every generated library circuit and is part of the tie, so each passing case is a theorem instance over all settings '
               '(C10_holds_all_settings_partial), and the tie implies the judge (C10_tie_implies_spec).')
 LEVEL_NOTE = ('Partial: the "all constructor inputs" half (chain descriptions, layouts, cycle counts, initial states, calibration type) is covered by generation, not by proof - '
-              'no closed-form schedule of the constructors is derived, the certificate is computed per extracted graph. The theorems are about Core/Model.v run on the '
+              'no closed-form schedule of the constructors is derived, the certificate is computed per extracted graph. The supporting check LIBBUILD (run by this check, verdict reported here) models the constructors themselves as Gallina build programs tied node for node to the real constructors, and LibBuild_chain_no_overlap_partial proves the certificate for the PROGRAM rep_code_prog on a finite list of inputs (d=2 all data states, d=3 selected, 0..6 cycles), i.e. without extracting a graph from the implementation. The theorems are about Core/Model.v run on the '
               'structure extracted from the real circuit (true insertion order recorded by the driver); model and implementation are tied by exact equality of the reported '
               'listing (class, channels, start, end, length, tag) and duration under sampled settings (microwave > readout, all equal, 0.25, 2^15 included), plain and '
               'unrolled, and the implementation\'s listing is judged by spec_ok without the model. Hypotheses on settings: non-negative (the text says positive) and '
